@@ -27,22 +27,25 @@ FqRound(out, head, seq, qual) ==
 FaViol(e) ==
   LET dom == HeadInDomain(e.head) /\ FaSeqInDomain(e.seq)
       plain == <<e.write_to, e.write_parts, e.head_seq, e.iddesc_seq, e.owned>>
+      \* (a width that made a writing function panic has no outputs to judge)
+      W == {k \in 1..Len(e.wraps) : "panic" \notin DOMAIN e.wraps[k] \/ ~e.wraps[k].panic}
       conj == <<
+        <<"C10", "write_function_panicked", \A k \in 1..Len(e.wraps) : k \in W>>,
         <<"C10", "plain_roundtrip", ~dom \/ \A i \in 1..Len(plain) : FaRound(plain[i], e.head, e.seq)>>,
         <<"C10", "seq_iter_roundtrip", ~dom \/ \A i \in 1..Len(e.iters) : FaRound(e.iters[i].out, e.head, e.seq)>>,
-        <<"C10", "wrap_roundtrip", ~dom \/ \A k \in 1..Len(e.wraps) : LET w == e.wraps[k] IN
+        <<"C10", "wrap_roundtrip", ~dom \/ \A k \in W : LET w == e.wraps[k] IN
               /\ FaRound(w.write_wrap, e.head, e.seq) /\ FaRound(w.head_wrap_seq, e.head, e.seq) /\ FaRound(w.owned_wrap, e.head, e.seq)
               /\ \A i \in 1..Len(w.iters) : FaRound(w.iters[i].out, e.head, e.seq)>>,
-        <<"C10", "wrap_width", ~dom \/ \A k \in 1..Len(e.wraps) : LET w == e.wraps[k] IN
+        <<"C10", "wrap_width", ~dom \/ \A k \in W : LET w == e.wraps[k] IN
               /\ FaWrapOK(w.write_wrap, w.w) /\ FaWrapOK(w.head_wrap_seq, w.w) /\ FaWrapOK(w.owned_wrap, w.w)
               /\ \A i \in 1..Len(w.iters) : FaWrapOK(w.iters[i].out, w.w)>>,
         <<"C10", "chunked_equals_whole", Len(e.seq) = 0 \/
               /\ \A i \in 1..Len(e.iters) : e.iters[i].out = e.head_seq
-              /\ \A k \in 1..Len(e.wraps) : \A i \in 1..Len(e.wraps[k].iters) : e.wraps[k].iters[i].out = e.wraps[k].head_wrap_seq>>,
+              /\ \A k \in W : \A i \in 1..Len(e.wraps[k].iters) : e.wraps[k].iters[i].out = e.wraps[k].head_wrap_seq>>,
         <<"C10", "chunks_are_a_chunking", \A i \in 1..Len(e.iters) : Concat(e.iters[i].chunks) = e.seq>>,
         \* a sink that accepts a few bytes per call (and has the default write_vectored) must receive the same text
         <<"C10", "short_writing_sink_roundtrip", ~dom \/ (/\ \A i \in 1..Len(e.short) : FaRound(e.short[i], e.head, e.seq)
-                                                          /\ \A k \in 1..Len(e.wraps) : LET w == e.wraps[k] IN
+                                                          /\ \A k \in W : LET w == e.wraps[k] IN
                                                                /\ FaRound(w.short_write_wrap, e.head, e.seq) /\ FaWrapOK(w.short_write_wrap, w.w)
                                                                /\ FaRound(w.short_owned_wrap, e.head, e.seq) /\ FaWrapOK(w.short_owned_wrap, w.w)
                                                                /\ FaRound(w.short_iter, e.head, e.seq) /\ FaWrapOK(w.short_iter, w.w))>>
